@@ -42,6 +42,7 @@ func init() {
 		Explain: "Decides the last sentence of C02 for every input and schedule — a member's status time only grows and an intent not newer than the applied one changes nothing — as shape facts of the two intent handlers: every write of memberState.statusLTime module-wide is in an intent handler (or initialises a freshly allocated member), every status/time write and every true result there is edge-dominated by msg.LTime > member.statusLTime, stores msg.LTime, and sits in the memberLock write section; plus the transition table, the intent buffer's strict newer-than test, and the push/pull conversion (+1 for synthetic leaves). Cross-replica agreement is not decided.",
 		Run: runC02,
 		Mutants: []Mutant{
+			{Name: "rename-locals", Equivalent: true, Regexp: true, File: "serf/serf.go", Func: "func (s *Serf) handleNodeLeaveIntent(", Old: `\b(member|ok|state)\b`, New: "${1}Renamed"},
 			{Name: "leave-guard-lt", File: "serf/serf.go", Func: "func (s *Serf) handleNodeLeaveIntent(", Old: "if leaveMsg.LTime <= member.statusLTime {", New: "if leaveMsg.LTime < member.statusLTime {", Expect: "R2"},
 			{Name: "join-guard-lt", File: "serf/serf.go", Func: "func (s *Serf) handleNodeJoinIntent(", Old: "if joinMsg.LTime <= member.statusLTime {", New: "if joinMsg.LTime < member.statusLTime {", Expect: "R2"},
 			{Name: "join-status-before-guard", File: "serf/serf.go", Func: "func (s *Serf) handleNodeJoinIntent(", Old: "\t// Check if this time is newer than what we have\n", New: "\tif member.Status == StatusLeaving {\n\t\tmember.Status = StatusAlive\n\t}\n", Expect: "R2"},
